@@ -12,6 +12,8 @@ import (
 
 type c07Case struct {
 	Doc *vlib.Doc `json:"doc"`
+	// NL: line-end convention of both renderings ("" = LF).
+	NL string `json:"nl,omitempty"`
 }
 
 func c07Check(c c07Case, info *vlib.Info) *vlib.Failure {
@@ -57,7 +59,7 @@ func c07Check(c c07Case, info *vlib.Info) *vlib.Failure {
 	if nested {
 		info.Class("macro-pastes-macro")
 	}
-	src := vlib.Render(doc, vlib.Style{}).Text
+	src := vlib.Render(doc, vlib.Style{NL: c.NL}).Text
 	res := vlib.Run(vlib.Single(src))
 	if res.Panic != "" {
 		return vlib.Failf("panic: "+res.Panic, "%s\n--- source:\n%s", res.Panic, src)
@@ -67,6 +69,7 @@ func c07Check(c c07Case, info *vlib.Info) *vlib.Failure {
 		return nil // the relation speaks about accepted macro documents (C04 checks that valid ones are accepted)
 	}
 	info.Class("macro-doc-accepted")
+	info.Class("nl:" + map[string]string{"": "LF", "\r\n": "CRLF", "\r": "CR"}[c.NL])
 	inl, prob := vlib.Inline(doc)
 	if prob != "" {
 		return vlib.Failf("harness: inline", "reference inliner refuses an accepted document: %s\n%s", prob, src)
@@ -75,7 +78,7 @@ func c07Check(c c07Case, info *vlib.Info) *vlib.Failure {
 		info.Class("inlined-text-not-expressible")
 		return nil
 	}
-	src2 := vlib.Render(inl, vlib.Style{}).Text
+	src2 := vlib.Render(inl, vlib.Style{NL: c.NL}).Text
 	res2 := vlib.Run(vlib.Single(src2))
 	if f := sameOutcome("inline", src, src2, res, res2, vlib.RegexTypeReferenced(doc)); f != nil {
 		return f
@@ -92,7 +95,7 @@ func c07Check(c c07Case, info *vlib.Info) *vlib.Failure {
 		}
 		d3.Top = top
 		if d3.FixContexts() {
-			src3 := vlib.Render(d3, vlib.Style{}).Text
+			src3 := vlib.Render(d3, vlib.Style{NL: c.NL}).Text
 			res3 := vlib.Run(vlib.Single(src3))
 			if f := sameOutcome("drop-unused-macro", src, src3, res, res3, vlib.RegexTypeReferenced(doc)); f != nil {
 				return f
@@ -230,12 +233,44 @@ func c07NegCheck(c c07Neg, info *vlib.Info) *vlib.Failure {
 
 func TestC07(t *testing.T) {
 	h := vlib.New(t, "C07", "exploration",
-		"generated documents with 0-4 macros of seven body kinds (responses, response children, INFO / SERVER / method / URL children, whole top-level blocks), macros pasting macros, pastes at every admissible position, used and unused macros, definitions before and after use; oracle: accepted macro document => the inlined document (reference inliner) is accepted with the byte-identical catalog, and dropping unused macros changes nothing; negative paste graphs over 1-8 macros (cycles of drawn length reachable or not from a top-level PASTE, undefined and duplicate names, nameless PASTE/MACRO, annotated and empty MACRO) must be rejected with a diagnostic within the hang limit; non-trivial = a pasted macro with >= 2 directives in its body, or a negative graph; distinct by document",
+		"generated documents with 0-4 macros of seven body kinds (responses, response children, INFO / SERVER / method / URL children, whole top-level blocks), macros pasting macros, pastes at every admissible position, used and unused macros, definitions before and after use, rendered with LF, CRLF or CR line ends (both documents alike); oracle: accepted macro document => the inlined document (reference inliner) is accepted with the byte-identical catalog, and dropping unused macros changes nothing; negative paste graphs over 1-8 macros (cycles of drawn length reachable or not from a top-level PASTE, undefined and duplicate names, nameless PASTE/MACRO, annotated and empty MACRO) must be rejected with a diagnostic within the hang limit; non-trivial = a pasted macro with >= 2 directives in its body, or a negative graph; distinct by document",
 		"cycle cases run under the driver's hang limit and crash journal (a stack overflow kills the worker and is recovered)")
-	h.Require("macro-doc-accepted", "has-unused-macro", "macro-pastes-macro", "neg:paste-cycle", "neg:cycle-length>=2", "neg:PASTE-of", "neg:two-macros")
+	h.Require("nl:LF", "nl:CRLF", "nl:CR", "macro-doc-accepted", "has-unused-macro", "macro-pastes-macro", "neg:paste-cycle", "neg:cycle-length>=2", "neg:PASTE-of", "neg:two-macros", "undefined-paste-without-any-macro")
 	runPairRegression(h, c07Pairs)
 	vlib.Rapid(h, "inline-equivalence", h.N(10000, 400000), func(t *rapid.T) c07Case {
-		return c07Case{Doc: vlib.GenDoc(t, vlib.GenOpts{Macros: true, TopPasteAnywhere: true})}
+		return c07Case{Doc: vlib.GenDoc(t, vlib.GenOpts{Macros: true, TopPasteAnywhere: true}),
+			NL: rapid.SampledFrom([]string{"", "", "\r\n", "\r"}).Draw(t, "nl")}
 	}, c07Check)
+	// PASTE of an undefined macro at any admissible position of a generated
+	// document, with and without macros elsewhere in it
+	vlib.Rapid(h, "undefined-paste-in-generated-docs", h.N(4000, 150000), func(t *rapid.T) faultCase {
+		base := vlib.GenDoc(t, vlib.GenOpts{Macros: rapid.IntRange(0, 2).Draw(t, "macros") == 0})
+		doc, fault, ok := vlib.InjectFaultOfKind(t, base, "undefined-macro")
+		return faultCase{Doc: doc, Fault: fault, OK: ok}
+	}, func(c faultCase, info *vlib.Info) *vlib.Failure {
+		if !c.OK || c.Fault.Route == "in-unused-macro" {
+			return nil // a macro that is never pasted contributes nothing
+		}
+		hasMacro := false
+		c.Doc.Walk(func(d, _ *vlib.Dir) {
+			if d.Kw == "MACRO" {
+				hasMacro = true
+			}
+		})
+		info.NonTrivial = true
+		info.Class("neg:PASTE-of")
+		if !hasMacro {
+			info.Class("undefined-paste-without-any-macro")
+		}
+		src := vlib.Render(c.Doc, vlib.Style{}).Text
+		res := vlib.Run(vlib.Single(src))
+		if res.Panic != "" {
+			return nil // C01
+		}
+		if res.Accepted {
+			return vlib.Failf("negative-accepted: PASTE of an undefined macro", "accepted although it pastes an undefined macro\n--- source:\n%s", src)
+		}
+		return nil
+	})
 	vlib.Rapid(h, "negative-paste-graphs", h.N(6000, 200000), genPasteGraph, c07NegCheck)
 }
